@@ -79,7 +79,8 @@ impl Default for InterleavingFactor {
 pub struct HuffmanEncSymbol {
     /// Packed bit pattern for this symbol
     pub bits: u16,
-    /// Number of bits in the code
+    /// Number of bits in the code (1..=16); 0 marks an entry the table cannot hold
+    /// (code longer than 16 bits, or symbol without a code): the encoder then reads the tree
     pub bit_count: u16,
 }
 
@@ -1546,8 +1547,14 @@ impl ContextualHuffmanEncoder {
                 // O(1) array lookup instead of HashMap
                 let code = syms[context][symbol];
 
-                // Write bits using same format as original encoder
-                writer.write(code.bits as u64, code.bit_count as usize);
+                if code.bit_count == 0 {
+                    // Not representable in the 16-bit fast table (code longer than 16 bits,
+                    // or no code at all): take the code from the tree itself
+                    self.write_code_from_tree(&mut writer, context, symbol as u8)?;
+                } else {
+                    // Write bits using same format as original encoder
+                    writer.write(code.bits as u64, code.bit_count as usize);
+                }
 
                 // Update context to current symbol
                 contexts[n] = symbol;
@@ -1714,30 +1721,67 @@ impl ContextualHuffmanEncoder {
             // Build codes for all symbols in this tree
             for symbol in 0..=255u8 {
                 if let Some(code) = tree.get_code(symbol) {
+                    if code.len() > 16 {
+                        // Does not fit the 16-bit entry: bit_count 0 sends the encoder to
+                        // the tree (truncating the code would emit another symbol's prefix)
+                        table[context][symbol as usize] = HuffmanEncSymbol::new(0, 0);
+                        continue;
+                    }
+
                     // Convert Vec<bool> to packed bits
                     let mut bits = 0u16;
                     let bit_count = code.len() as u16;
 
-                    // Safety: Huffman codes should not exceed 16 bits for byte alphabets
-                    // If they do, we truncate (very rare edge case)
-                    let safe_bit_count = bit_count.min(16);
-
-                    for (i, &bit) in code.iter().take(16).enumerate() {
+                    for (i, &bit) in code.iter().enumerate() {
                         if bit {
                             bits |= 1u16 << i;
                         }
                     }
 
-                    table[context][symbol as usize] = HuffmanEncSymbol::new(bits, safe_bit_count);
+                    table[context][symbol as usize] = HuffmanEncSymbol::new(bits, bit_count);
                 } else {
-                    // Symbol not in tree - use a default placeholder
-                    // This should not happen with properly built trees
-                    table[context][symbol as usize] = HuffmanEncSymbol::new(0, 1);
+                    // Symbol not in tree: bit_count 0 sends the encoder to the tree,
+                    // where the missing code is reported as an error
+                    table[context][symbol as usize] = HuffmanEncSymbol::new(0, 0);
                 }
             }
         }
 
         table
+    }
+
+    /// Write the code of `symbol` in `context` straight from the tree (codes of any length).
+    /// Used by the interleaved encoder for entries the fast symbol table cannot hold.
+    fn write_code_from_tree(
+        &self,
+        writer: &mut BitStreamWriter,
+        context: usize,
+        symbol: u8,
+    ) -> Result<()> {
+        let tree_idx = if context == 256 {
+            0 // Initial context uses Order-0 tree
+        } else {
+            *self.context_map.get(&(context as u32)).unwrap_or(&0)
+        };
+
+        let code = self.trees[tree_idx].get_code(symbol).ok_or_else(|| {
+            ZiporaError::invalid_data(format!(
+                "Symbol {} has no code in the tree for context {}",
+                symbol, context
+            ))
+        })?;
+
+        for chunk in code.chunks(32) {
+            let mut bits = 0u64;
+            for (i, &bit) in chunk.iter().enumerate() {
+                if bit {
+                    bits |= 1u64 << i;
+                }
+            }
+            writer.write(bits, chunk.len());
+        }
+
+        Ok(())
     }
 
     /// Build decode table for fast symbol lookup
